@@ -1,0 +1,23 @@
+//go:build verif
+
+package op
+
+import "github.com/berquerant/crd/note"
+
+// Ghost lemma functions for govc: never called, compiled only with -tags verif.
+// Each is verified against its contract in verif_contracts.go using only the
+// contracts of the functions it calls, so that the property follows from the
+// proved contracts by the same modular reasoning as any other caller.
+
+// lemmaC03ScaleNotesAccepted: the seven notes of a supported key's own scale
+// are accepted as roots (mapping to the scale's own degrees) and as bass notes
+// over one another, whatever search preference is used.
+func lemmaC03ScaleNotesAccepted(k Key, i, j int, rootSharp, bassSharp bool) (root note.Degree, err1 error, bass note.Degree, err2 error) {
+	s, err := NewScale(k)
+	if err != nil {
+		return root, err, bass, err
+	}
+	root, err1 = s.Tonic().GetDegree(s.Notes[i], rootSharp)
+	bass, err2 = s.Notes[i].GetDegree(s.Notes[j], bassSharp)
+	return root, err1, bass, err2
+}
